@@ -18,8 +18,10 @@ Inductive obs :=
 | ObPage (edges : list edge) (cursors : list ocur) (info : option oinfo).
 
 Record step := {
-  s_args : args; s_info : bool; s_pres : list pres; s_obs : obs; s_triples : list query
+  s_args : args; s_info : bool; s_pres : list pres; s_obs : obs;
+  s_calls : list (query * list edge)      (* each triple the getter received, and its answer *)
 }.
+Definition s_triples (s : step) : list query := map fst (s_calls s).
 
 Inductive kind := KSingle | KWalk (fwd : bool) (n : Z).
 
@@ -108,12 +110,12 @@ Definition dec_obs (s : sexp) : option obs :=
   | None => None
   end.
 
-Definition dec_query (s : sexp) : option query :=
+Definition dec_call (s : sexp) : option (query * list edge) :=
   match s with
-  | SL [a; b; c] => match as_Z a, as_Z b, as_Z c with
-                    | Some x, Some y, Some z => Some (mkq x y z)
-                    | _, _, _ => None
-                    end
+  | SL [a; b; c; SL r] => match as_Z a, as_Z b, as_Z c, map_opt dec_edge r with
+                          | Some x, Some y, Some z, Some r' => Some (mkq x y z, r')
+                          | _, _, _, _ => None
+                          end
   | _ => None
   end.
 
@@ -122,9 +124,9 @@ Definition dec_step (s : sexp) : option step :=
   | Some (a :: l) =>
       match dec_args a, field1 "info" l, field1 "pres" l, field1 "obs" l, field1 "triples" l with
       | Some a', Some i, Some (SL ps), Some o, Some (SL ts) =>
-          match as_bool i, map_opt dec_pres ps, dec_obs o, map_opt dec_query ts with
+          match as_bool i, map_opt dec_pres ps, dec_obs o, map_opt dec_call ts with
           | Some i', Some ps', Some o', Some ts' =>
-              Some {| s_args := a'; s_info := i'; s_pres := ps'; s_obs := o'; s_triples := ts' |}
+              Some {| s_args := a'; s_info := i'; s_pres := ps'; s_obs := o'; s_calls := ts' |}
           | _, _, _, _ => None
           end
       | _, _, _, _, _ => None
@@ -184,6 +186,17 @@ Definition pres_fun (ps : list pres) : nat -> pres := fun i => nth i ps sync_pre
 
 Definition of_edge (e : edge) : sexp := SL [SZ (nano e); SStr (cid e)].
 
+(** ** The premise of the property, checked on every observed getter call: the harness getter
+    honoured the triple (no repetition, only edges of E inside the range, at least the first /
+    last |limit| of them), and answered what the Coq getter of the declared kind answers.  A failure
+    here is a defect of the harness, not of the implementation: [bad-case]. *)
+Definition call_honoured (E : list edge) (g : query -> list edge) (c : query * list edge) : bool :=
+  let (q, r) := c in
+  nodupb r
+  && forallb (fun e => memb e E && in_range q e) r
+  && forallb (fun e => memb e r) (range_ref E q)
+  && edges_eqb r (g q).
+
 (** ** The Spec oracle on one step *)
 Definition window_ok (a : args) (e : edge) : bool := from_ok (a_from a) e && to_ok (a_to a) e.
 Definition cursors_ok (a : args) (e : edge) : bool :=
@@ -233,7 +246,7 @@ Definition oracle_step (E : list edge) (g : query -> list edge) (i : nat) (s : s
         if negb (edges_eqb es ref) then fail "order" []
         else if negb (ocurs_eqb cs es) then fail "edge-cursor-mismatch" []
         else
-        match find (fun e => negb (existsb (fun q => memb e (g q)) (s_triples s))) ref with
+        match find (fun e => negb (existsb (fun c => memb e (snd c)) (s_calls s))) ref with
         | Some e => fail "insufficient-range-queries" [of_edge e]
         | None =>
         match info with
@@ -383,6 +396,8 @@ Definition check (c : sexp) : sexp :=
           match map_opt dec_edge es, dec_getter gk, dec_kind k, map_opt dec_step ss with
           | Some E, Some mk, Some kd, Some steps =>
               if negb (nodupb E) then v_bad "duplicate-cursors-in-data-set"
+              else if negb (forallb (fun s => forallb (call_honoured E (mk E)) (s_calls s)) steps)
+              then v_bad "harness-getter-does-not-honour-the-triple"
               else
                 let g := mk E in
                 match first_some (oracle_step E g) 0 steps with
